@@ -5,3 +5,9 @@ Check Props.C11.C11_abandoned_exactly_at_the_limit :
   forall tr s a o s' x, run init tr = Acc s -> step s (EvHEnd a o HAbandoned) = Acc s' ->
   actors s a = Some x -> a_crashing x = false ->
   exists d, a_phase x = PhHandle o (Some d) /\ now s = d.
+Check Props.C11.C11_giving_up_on_a_call_changes_nothing_at_the_actor :
+  forall s o s', step s (EvAbandon o) = Acc s' ->
+  actors s' = actors s /\ handles s' = handles s /\ joins s' = joins s /\ reg s' = reg s /\ now s' = now s
+  /\ (forall o', o' <> o -> ops s' o' = ops s o')
+  /\ exists p, ops s o = Some p /\ op_done p = false /\ op_k p = XCall /\ op_imm p = None
+       /\ ops s' o = Some (set_op_done true p).
